@@ -89,9 +89,12 @@ def main():
     fn = globals().get("replay_" + kind)
     if fn is None:
         import importlib
-        for modname in ("native.replay_mesh", "native.replay_misc"):
+        import os
+        here = os.path.dirname(os.path.abspath(__file__))
+        mods = sorted(f[:-3] for f in os.listdir(here) if f.endswith(".py") and f.startswith(("replay_", "standin_")))
+        for modname in mods:
             try:
-                m = importlib.import_module(modname)
+                m = importlib.import_module("native." + modname)
             except ImportError:
                 continue
             fn = getattr(m, "replay_" + kind, None)
